@@ -175,6 +175,16 @@ impl Scenario for C10 {
 
     fn generate(&self, rng: &mut Prng, _tier: Tier) -> Spec {
         let mut spec = Spec { prop: "C10".into(), ..Default::default() };
+        if rng.chance(1, if _tier == Tier::Quick { 66 } else { 2_000 }) {
+            // birthday search: an `==` that has lost seed identity down to k bits (a checksum, a truncated
+            // comparison) equates two of m unrelated generators with probability m^2 / 2^(k+1); HC-128 states
+            // cannot be manufactured, so unrelated seeds are all there is. aux = [key, m]
+            spec.variant = "eq_birthday".into();
+            spec.kind = Some(Kind::Hc128);
+            spec.pre = *rng.pick(&[0u32, 0, 1, 5, 16, 17]);
+            spec.aux = vec![rng.u64(), 4096];
+            return spec;
+        }
         match rng.below(20) {
             0..=7 => {
                 spec.variant = "clone".into();
@@ -523,6 +533,45 @@ impl C10 {
         }
     }
 
+    fn run_birthday(&self, spec: &Spec, st: &mut Stats) -> Result<(), E> {
+        let (key, m) = (spec.aux[0], spec.aux.get(1).copied().unwrap_or(4096) as usize);
+        let seed_of = move |i: usize| -> [u8; 32] {
+            let mut s = [0u8; 32];
+            for (k, ch) in s.chunks_mut(8).enumerate() {
+                ch.copy_from_slice(&crate::prng::h2(key ^ (k as u64) << 56, i as u64).to_le_bytes());
+            }
+            s
+        };
+        st.add("probe:birthday_pairs_compared", (m * (m - 1) / 2) as u64);
+        st.sig(&[Kind::Hc128.id(), 77, spec.pre as u64]);
+        let hit = sut(crate::gens::hc128_equal_pair(&seed_of, m, spec.pre), "eq")?;
+        if let Some((i, j)) = hit {
+            // two unrelated seeds compare equal: the pair goes through the two_seeds oracle (equal => same future)
+            let narrowed = Spec {
+                prop: "C10".into(),
+                variant: "two_seeds".into(),
+                kind: Some(Kind::Hc128),
+                seed: Some(crate::gens::SeedSpec::Bytes(seed_of(i).to_vec())),
+                seed2: Some(crate::gens::SeedSpec::Bytes(seed_of(j).to_vec())),
+                pre: spec.pre,
+                ops: vec![Op::Fork, Op::U32, Op::U64, Op::Fill(9)],
+                generic: spec.generic,
+                place: spec.place,
+                ..Default::default()
+            };
+            st.count("probe:birthday_equal_pair_found");
+            return match self.run_two_seeds(&narrowed, st) {
+                Err(E::End(RunEnd::Violation(mut v))) => {
+                    v.detail = format!("[pair {} / {} of {} unrelated seeds] {}", i, j, m, v.detail);
+                    v.narrowed = Some(Box::new(narrowed));
+                    Err(E::End(RunEnd::Violation(v)))
+                }
+                other => other,
+            };
+        }
+        Ok(())
+    }
+
     fn run_two_seeds(&self, spec: &Spec, st: &mut Stats) -> Result<(), E> {
         let kind = spec.kind.expect("kind");
         if let Some(ck) = spec.core {
@@ -768,6 +817,7 @@ impl C10 {
             "bitflip" => self.run_bitflip(spec, st),
             "core" => self.run_core(spec, st),
             "isaac_array" => self.run_array(spec, st),
+            "eq_birthday" => self.run_birthday(spec, st),
             _ => Ok(()),
         };
         match r {
